@@ -28,7 +28,7 @@ CODE_STATE = {'CodeLen', 'BAsmCode', 'WAsmCode', 'DAsmCode', 'PCs', 'Phases', 'A
               'SectionStack', 'StructStack', 'MomSectionHandle', 'MomLocHandle', 'CurrTransTable', 'ENDOccured',
               'StartAdr', 'StartAdrPresent', 'asmcode.c:LenSoFar', 'asmcode.c:CodeBufferFill', 'PrgFile',
               'asmpars.c:FirstSymbol', 'asmpars.c:FirstLocSymbol', 'asmmac.c:MacroRoot', 'StructRoot', 'MomCPU',
-              'JmpErrors', 'WarnCount'}
+              'JmpErrors', 'WarnCount', 'FirstDefine', 'asmmac.c:FirstDefine'}
 CODE_FIELDS = {'sSymbolEntry.SymWert', 'sSymbolEntry.Defined', 'sSymbolEntry.Changeable', 'sSymbolEntry.Used'}
 EMITTERS = {'WrError', 'WrXError', 'WrStrErrorPos', 'WrXErrorPos', 'WrErrorString', 'ChkIO', 'ChkXIO', 'ChkStrIO'}
 
@@ -300,6 +300,46 @@ R1_EXC = {
 }
 
 
+def rule_r7(chk, facts, P):
+    chk.rule('C17-R7', 'AssembleFile(): a Clear*/Reset* call that empties code-affecting state (symbols, macros, #define list, '
+             'code pages, ...) between passes or files is not controlled by a report-only option: without that option the '
+             'state of the abandoned pass would survive into the next one', min_instances=3)
+    from . import effects as E
+    ph = asl_phases(facts, P)
+    af = ph['AssembleFile']
+    n = 0
+    conds = []
+    for b, blk in af.blocks.items():
+        c = blk.get('cond')
+        if c is None or len(blk['succ']) != 2:
+            continue
+        opts = {m[1] for m in walk(c) if isinstance(m, (list, tuple)) and len(m) > 1 and m[0] in GLOBKINDS and m[1] in REPORT_OPTS}
+        if not opts:
+            continue
+        conds.append((sorted(opts), c))
+    for b, i, ln, c in af.calls():
+        cn = callee_name(c) or ''
+        if not (cn.startswith('Clear') or cn.startswith('Reset')):
+            continue
+        g = P.resolve(af.unit, cn)
+        if g is None or g.entry is None:
+            continue
+        hit = sorted(k for k in E.kill(P, g) if k in CODE_STATE)
+        if not hit:
+            continue
+        n += 1
+        # controlled: every path from the function entry to the call takes the same branch of the option test
+        ctl = [o for o, c_ in conds if any(
+            af.guarded(b, i, lambda l, c_=c_, pol=pol: l is not None and l[0] == pol and l[1] is c_)[0] for pol in ('T', 'F'))]
+        ok = not ctl
+        chk.ob('C17-R7', 'as.c:AssembleFile:%s@%d' % (cn, sum(1 for b2, i2, l2, c2 in af.calls(cn) if l2 < ln)), ok, af.loc(ln),
+               'not controlled by a report option (%s)' % ', '.join(hit) if ok else
+               '%s(), which empties %s, is only called under the report option %s: without it the entries of the previous '
+               'pass stay active from the first line of the next pass, so the code depends on the option' % (
+                   cn, ', '.join(hit), ', '.join(ctl[0])))
+    return n
+
+
 def rule_r6(chk, facts, P):
     chk.rule('C17-R6', 'generated symbol names are independent of the listing format options: (a) every as_snprintf() that '
              'builds a name starting with "__" (temporary symbols) uses only %d and %s conversions, and (b) in the common '
@@ -440,6 +480,7 @@ def run(chk, facts, info):
         raise AnalysisBroken('only %d ChkIO call sites found' % n5)
     rule_r4(chk, facts, P)
     rule_r6(chk, facts, P)
+    rule_r7(chk, facts, P)
     chk.note('Decided: non-interference of report-only options with code-affecting state (per read site), confinement '
              'of the dual-use formatting options, reviewed sites of clock/environment reads, single option decoder. Not '
              'decided: listing/MAP text reproducibility, locale-dependent folding of non-ASCII letters, -A tree shape.')
